@@ -97,6 +97,19 @@ theorem print_parse_roundtrip_bytes (e : Expr) (hC : Canon ff pf e) (hN : NamesO
     (Or.inr (Or.inr (Or.inr (Or.inr rfl)))) ht
   exact ⟨items, e', hl, hp, he⟩
 
+/-- C01, parser completeness from BYTES: any text that spells a rendering of `e` — minimal or
+    redundant parentheses (`RendersTop`), any spelling of the literals, spaces wherever the piece list
+    `ps` has them — in which every token is followed by bytes that do not extend it (`Adj`) and every
+    `-` stands after a token that decides unary/binary as intended (`chainOK`), is lexed and parsed
+    to `e` modulo positions.  (`print_parse_roundtrip_bytes` is the instance `ps = pieces ff e`.) -/
+theorem parse_complete_bytes (e : Expr) (ps : List Piece) (ha : Adj ps [])
+    (hc : SoyVerif.Lemmas.ParserAdj.chainOK .tInvalid (SoyVerif.Lemmas.ParserAdj.typs (unsp ps)) = true)
+    (hR : SoyVerif.Props.C17.RendersTop pf e (unsp ps)) :
+    ∃ items e', lexAll (spell ps) true = .items items ∧ parseExprEntry pf items = .ok e' ∧ erase e' = erase e := by
+  obtain ⟨e', hp, he⟩ := SoyVerif.Lemmas.ParserRound.parse_slot_entry_term pf T e (unsp ps) errTk (emitAll 0 ps)
+    hR (Or.inr (Or.inr (Or.inr (Or.inr rfl)))) (emitAll_tk 0 ps)
+  exact ⟨_, e', lexAll_pieces LT ps ha hc, hp, he⟩
+
 /-- C17, the statement of the property: two canonical trees that print the same TEXT are the same
     tree (modulo positions) -/
 theorem print_injective_bytes (a b : Expr) (ha : Canon ff pf a) (hb : Canon ff pf b)
